@@ -6,7 +6,7 @@ cd "$(dirname "$0")/.." || exit 2
 MISSED=0
 for D in seeded/${1:-}*/; do
   ID=$(basename "$D")
-  PROP=$(python3 -c "import json,sys;print(json.load(open(sys.argv[1]))['property'])" "$D/meta.json")
+  PROP=$(python3 -c "import json,sys;m=json.load(open(sys.argv[1]));print(m.get('check', m['property']))" "$D/meta.json")      # 'check': the check that catches it when that is not its own property's
   OUT=$(tools/try_mutant.sh "$D/patch.diff" "$D/demo.py" "$PROP" 2>&1)
   if echo "$OUT" | grep -q "PATCH DOES NOT APPLY"; then V="PATCH-DOES-NOT-APPLY (the code it changed has since been repaired or rewritten)";
   elif echo "$OUT" | grep -q "check $PROP on mutant: exit 1"; then V="caught";
